@@ -4,8 +4,21 @@
     from inside callbacks, raising callbacks, fail, dispose) vs Core/AutoDetach.v.
 (b) K2 on random PIPELINES (depth 1..4) of element-wise/aggregate operators over
     conforming and non-conforming hot sources with raising callbacks, vs the
-    composed machines; oracle: the grammar regex on what the subscriber saw."""
+    composed machines; oracle: the grammar regex on what the subscriber saw.  A second batch has the source
+    deliver a prefix of its sequence (possibly the terminal) INSIDE its own subscribe().
+(c) Observable.subscribe around hand-written subscribe functions (raise / keep the observer), subscriber given
+    as callbacks, Observer object, duck-typed observer, without error handler; also from inside a running
+    trampoline (the inline `else: set_disposable()` branch).
+(d) K1 on the real Observer base class (observer/observer.py): the same call forests on Observer(cb, cb, cb), on
+    its as_observer() view, on a subclass overriding the _core methods (vs Core/ObserverBase.v), and -- oracle
+    only -- on a mix of calls into an observer and its as_observer() view, and without an error handler.
+(f) oracle only: pipelines headed by a multi-source operator (C10-C13 tables) followed by C05/C06 stages.
+(e) structural: no class deriving from Observable defines `subscribe`; Observable.subscribe hands the user
+    callbacks only to AutoDetachObserver(...) and only that wrapper to _subscribe_core (AST + loaded classes)."""
+import ast
 import json
+import os
+import random
 import re
 
 import k2
@@ -93,7 +106,8 @@ def part_a(chk):
         s = "".join("N" if "Next" in e else ("E" if "Err" in e else "C") for e in eff if e.startswith("Deliver"))
         g = "[" + "; ".join(g_call(c) for c in forest) + "]"
         if not GRAMMAR.match(s):
-            chk.violation(f"autodetach-grammar|{g}", {"history": g, "callbacks_saw": s, "effects": eff,
+            chk.violation(f"autodetach-grammar|{g}", {"family": "autodetach", "forest": forest, "history": g,
+                                                      "callbacks_saw": s, "effects": eff,
                                                       "expected": "N*[EC]?"}, size=len(g))
         if any(c[2] for c in forest):
             hist["depth>0"] += 1
@@ -134,10 +148,7 @@ Definition model (h : list (call Z)) := first_subdispose false (snd (run_calls f
     return nontrivial, hist
 
 
-def part_b(chk):
-    """random pipelines of Z->Z operators"""
-    import reactivex
-    pool5, T5 = C05.ops_table()
+def _pipeline_gens():
     pool = Pool(HASHABLE_POOL)
     # rebuild both tables over ONE hashable pool so stages compose
     C05_POOL_BACKUP = k2.POOL
@@ -150,23 +161,62 @@ def part_b(chk):
     gens = []
     for name, g in list(T5.items()) + list(T6.items()):
         gens.append((name, g))
-    n = 150 if chk.tier == "quick" else 3000
+    return pool5, gens
+
+
+def _draw_pipeline(rng, gens, pool5, sync):
+    """-> (depth, stages, inputs, p) ; p = number of inputs the source delivers inside subscribe() (None: redraw)"""
+    depth = rng.randint(1, 4)
+    stages = []
+    while len(stages) < depth:
+        name, g = rng.choice(gens)
+        inst = g(rng)
+        if not inst.get("poolvals") or inst.get("pool") is not None:
+            continue
+        stages.append((name, inst))
+    ins = k2.gen_inputs(rng, pool5, maxlen=6, conforming=(rng.random() < 0.5))
+    p = 0
+    if sync:
+        if not ins:
+            return depth, stages, ins, None
+        p = len(ins) if rng.random() < 0.4 else rng.randint(1, len(ins))
+    return depth, stages, ins, p
+
+
+def replay_pipeline_sync(case_seed):
+    pool5, gens = _pipeline_gens()
+    depth, stages, ins, p = _draw_pipeline(random.Random(case_seed), gens, pool5, True)
+    res = k2.run_hot(lambda s: s.pipe(*[st[1]["py"] for st in stages]), ins, sync_prefix=p or 0)
+    saw = "".join(k for (_, k, _) in res["out"])
+    return saw, res, [st[1]["coq"] for st in stages], k2.g_inputs(ins, pool5), p
+
+
+def part_b(chk, sync=False):
+    """random pipelines of Z->Z operators; sync=True: a second batch (own random stream, one seed per case) in
+    which the source delivers the first p inputs inside its own subscribe()"""
+    import reactivex
+    batch_rng = random.Random(f"C01-sync-{chk.seed}") if sync else None
+    rng = chk.rng
+    pool5, gens = _pipeline_gens()
+    n = (150 if chk.tier == "quick" else 3000) if not sync else (100 if chk.tier == "quick" else 2000)
     cases, nontrivial = [], set()
     depth_hist = {}
     stage_hist = {}
+    sync_hist = {"terminal_inside_subscribe": 0, "all_inputs_inside_subscribe": 0}
     tries = 0
+    case_seed = None
     while len(cases) < n and tries < n * 20:
         tries += 1
-        depth = chk.rng.randint(1, 4)
-        stages = []
-        while len(stages) < depth:
-            name, g = chk.rng.choice(gens)
-            inst = g(chk.rng)
-            if not inst.get("poolvals") or inst.get("pool") is not None:
-                continue
-            stages.append((name, inst))
-        ins = k2.gen_inputs(chk.rng, pool5, maxlen=6, conforming=(chk.rng.random() < 0.5))
-        res = k2.run_hot(lambda s: s.pipe(*[st[1]["py"] for st in stages]), ins)
+        if sync:
+            case_seed = batch_rng.getrandbits(48)
+            rng = random.Random(case_seed)
+        depth, stages, ins, p = _draw_pipeline(rng, gens, pool5, sync)
+        if p is None:
+            continue
+        if sync:
+            sync_hist["all_inputs_inside_subscribe"] += 1 if p == len(ins) else 0
+            sync_hist["terminal_inside_subscribe"] += 1 if any(e[0] in "EC" for e in ins[:p]) else 0
+        res = k2.run_hot(lambda s: s.pipe(*[st[1]["py"] for st in stages]), ins, sync_prefix=p)
         chk.cov["evaluations"] += 1
         if res["build_error"] is not None:
             continue
@@ -176,8 +226,10 @@ def part_b(chk):
             coq = f"compose ({coq}) ({st[1]['coq']})"
         gi = k2.g_inputs(ins, pool5)
         if not GRAMMAR.match(s) or res["escapes"]:
-            chk.violation(f"pipeline-grammar|{'>'.join(st[0] for st in stages)}|{gi}",
-                          {"pipeline": [st[1]["coq"] for st in stages], "inputs": gi, "subscriber_saw": s,
+            chk.violation(f"pipeline-grammar|{'>'.join(st[0] for st in stages)}|{gi}|{p}",
+                          {"family": "pipeline_sync" if sync else "pipeline", "case_seed": case_seed,
+                           "pipeline": [st[1]["coq"] for st in stages], "inputs": gi, "subscriber_saw": s,
+                           "inputs_delivered_inside_subscribe": p,
                            "escaped": [repr(e) for _, e in res["escapes"]], "expected": "N*[EC]?, nothing escapes"},
                           size=len(ins) + depth)
         depth_hist[depth] = depth_hist.get(depth, 0) + 1
@@ -185,10 +237,23 @@ def part_b(chk):
             stage_hist[st[0]] = stage_hist.get(st[0], 0) + 1
         if len(s) > 1 and depth > 1:
             nontrivial.add(coq + gi)
-        cases.append((f"({coq}, {gi})", k2.g_out(res, lambda v: gz(pool5.id(v)))))
-    prelude = "Definition model (c : mealy Z Z * list (ev Z)) := exec (fst c) (snd c).\n"
-    bad, logs = lib.correspondence("C01", "pipe", IMPORTS_B, "(mealy Z Z * list (ev Z)) * list (nat * ev Z)",
-                                   "model", "(tagged_eqb Z.eqb)", cases, prelude=prelude)
+        if sync:
+            # inside subscribe() the position tags are not meaningful (a continuation the library trampolines --
+            # start_with's switch to the source, its completion -- runs when subscribe() unwinds, after later
+            # prefix inputs were offered): the SEQUENCE the subscriber saw is compared
+            seq = [k2.g_ev(k, p_, lambda v: gz(pool5.id(v))) for (_, k, p_) in res["out"]]
+            seq += [f"Err {gz(k2.ESCAPED)}" for _ in res["escapes"]]
+            cases.append((f"({coq}, {gi})", "[" + "; ".join(seq) + "]"))
+        else:
+            cases.append((f"({coq}, {gi})", k2.g_out(res, lambda v: gz(pool5.id(v)))))
+    if sync:
+        prelude = "Definition model (c : mealy Z Z * list (ev Z)) := map snd (exec (fst c) (snd c)).\n"
+        bad, logs = lib.correspondence("C01", "pipesync", IMPORTS_B, "(mealy Z Z * list (ev Z)) * list (ev Z)",
+                                       "model", "(list_eqb (ev_eqb Z.eqb))", cases, prelude=prelude)
+    else:
+        prelude = "Definition model (c : mealy Z Z * list (ev Z)) := exec (fst c) (snd c).\n"
+        bad, logs = lib.correspondence("C01", "pipe", IMPORTS_B, "(mealy Z Z * list (ev Z)) * list (nat * ev Z)",
+                                       "model", "(tagged_eqb Z.eqb)", cases, prelude=prelude)
     chk.cov["traces_validated_against_impl"] += len(cases)
     chk.cov["disagreements_checked"] += len(cases)
     if bad:
@@ -196,8 +261,11 @@ def part_b(chk):
         d = {"n": len(bad), "first (pipeline+inputs, implementation output)": firsts, "logs": logs[:1]}
         if firsts:
             d["model_says"] = lib.coq_show("C01", IMPORTS_B, f"model {firsts[0][0]}", prelude)
-        chk.tie_broken("correspondence K2: pipelines vs composed machines", d)
+        chk.tie_broken("correspondence K2: pipelines vs composed machines"
+                       + (" (source delivering a prefix inside subscribe())" if sync else ""), d)
     chk.add_samples([{"pipeline+inputs": cases[0][0], "output": cases[0][1]}] if cases else [])
+    if sync:
+        return nontrivial, {"depth": depth_hist, **sync_hist}
     return nontrivial, {"depth": depth_hist, "stages": stage_hist}
 
 
@@ -214,8 +282,11 @@ def gen_sub_case(rng):
             "src_raises": rng.choice([None, None, 31, 32]),
             "fail_handler_raises": rng.random() < 0.15,
             "tail": calls(rng.choice([0, 1, 2, 4]), ["N", "N", "N", "E", "C", "D"]),
-            "form": rng.choice(["callbacks", "callbacks", "observer", "no_on_error"]),
-            "returns": rng.choice(["disposable", "none", "callable"])}
+            "form": rng.choice(["callbacks", "callbacks", "observer", "no_on_error", "duck"]),
+            "returns": rng.choice(["disposable", "none", "callable"]),
+            # subscribe() called while a trampoline is already running (from inside another subscription):
+            # observable.py takes the inline `else: set_disposable()` branch
+            "nested": rng.random() < 0.3}
 
 
 def run_subscribe_case(case):
@@ -271,26 +342,45 @@ def run_subscribe_case(case):
             return lambda: None
         return None
     obs = reactivex.Observable(subscribe)
-    d = None
-    try:
-        if case["form"] == "callbacks":
-            d = obs.subscribe(on_next, on_error, on_completed)
-        elif case["form"] == "observer":
-            from reactivex import Observer
-            d = obs.subscribe(Observer(on_next, on_error, on_completed))
-        else:
-            d = obs.subscribe(on_next, None, on_completed)
-        if case["src_raises"] is not None:
+    box = [None]
+    inline = []
+
+    class Duck:                       # not an ObserverBase: taken by the hasattr(on_next, "on_next") route
+        pass
+    duck = Duck()
+    duck.on_next, duck.on_error, duck.on_completed = on_next, on_error, on_completed
+
+    def go():
+        from reactivex.scheduler import CurrentThreadScheduler
+        inline.append(not CurrentThreadScheduler.singleton().schedule_required())
+        try:
+            if case["form"] == "callbacks":
+                box[0] = obs.subscribe(on_next, on_error, on_completed)
+            elif case["form"] == "observer":
+                from reactivex import Observer
+                box[0] = obs.subscribe(Observer(on_next, on_error, on_completed))
+            elif case["form"] == "duck":
+                box[0] = obs.subscribe(duck)
+            else:
+                box[0] = obs.subscribe(on_next, None, on_completed)
+            if case["src_raises"] is not None:
+                made.append(("F", case["src_raises"], case["fail_handler_raises"]))
+                effects.append("FailReturned true")
+        except SourceError:
             made.append(("F", case["src_raises"], case["fail_handler_raises"]))
-            effects.append("FailReturned true")
-    except SourceError:
-        made.append(("F", case["src_raises"], case["fail_handler_raises"]))
-        effects.append("FailReturned false")
-    except CallbackError:
-        made.append(("F", case["src_raises"], case["fail_handler_raises"]))
-        effects.append("Raised 77")
-    finally:
-        cur[0] = None
+            effects.append("FailReturned false")
+        except CallbackError:
+            made.append(("F", case["src_raises"], case["fail_handler_raises"]))
+            effects.append("Raised 77")
+        finally:
+            cur[0] = None
+    if case.get("nested"):
+        from reactivex.scheduler import CurrentThreadScheduler
+        CurrentThreadScheduler.singleton().schedule(lambda *_: go())
+    else:
+        go()
+    d = box[0]
+    case["_inline_branch"] = bool(inline and inline[0])
     for c in case["tail"]:
         if c[0] == "D":
             if d is not None:
@@ -316,6 +406,7 @@ def part_c(chk):
         made, eff, saw = run_subscribe_case(case)
         chk.cov["evaluations"] += 1
         hist["form"][case["form"]] = hist["form"].get(case["form"], 0) + 1
+        hist["inline_set_disposable_branch"] = hist.get("inline_set_disposable_branch", 0) + case.pop("_inline_branch")
         if case["src_raises"] is not None:
             hist["subscribe_fn_raises"] += 1
             if any(c[0] != "D" for c in case["tail"]):
@@ -326,12 +417,13 @@ def part_c(chk):
             # declined cannot be told apart from outside, so only the grammar is judged
             if not GRAMMAR.match(saw):
                 chk.violation(f"subscribe-grammar|{json.dumps(case)}"[:160],
-                              {"subscribe_case": case, "subscriber_saw": saw, "effects": eff, "expected": "N*[EC]?"},
-                              size=len(made))
+                              {"family": "subscribe", "subscribe_case": case, "subscriber_saw": saw, "effects": eff,
+                               "expected": "N*[EC]?"}, size=len(made))
             continue
         if not GRAMMAR.match(saw):
             chk.violation(f"subscribe-grammar|{json.dumps(case)}"[:160],
-                          {"subscribe_case": case, "calls made by the source (incl. fail)": g, "subscriber_saw": saw,
+                          {"family": "subscribe", "subscribe_case": case,
+                           "calls made by the source (incl. fail)": g, "subscriber_saw": saw,
                            "effects": eff, "expected": "N*[EC]?"}, size=len(made))
         if len(saw) > 1 and saw[-1] in "EC" and case["src_raises"] is not None:
             nontrivial.add(g + case["form"])
@@ -365,6 +457,329 @@ Definition model (h : list (call Z)) := no_subdispose (snd (run_calls false h)).
     return nontrivial, hist
 
 
+# ---- (d) the Observer base class ---------------------------------------------------------------------------
+
+OB_VARIANTS = ["base", "base", "as_observer", "subclass", "mixed", "no_on_error"]
+IMPORTS_D = "Base.Prelude Base.CaseLib Ops.Machine Core.AutoDetach Core.ObserverBase"
+
+
+def run_observer_forest(forest, variant):
+    """the call forest of part (a) on reactivex.observer.Observer -> (effects, what the handlers saw)
+    base         Observer(on_next, on_error, on_completed)
+    as_observer  every call goes to base.as_observer()
+    subclass     a subclass overriding _on_next_core/_on_error_core/_on_completed_core (as Subject and
+                 ScheduledObserver do), no handlers
+    mixed        calls with an odd payload go to the observer itself, the others to its as_observer() view
+    no_on_error  Observer(on_next, None, on_completed): the default handler re-raises the error it is given"""
+    from reactivex.observer import Observer
+    effects, seen = [], []
+    cur = []
+
+    def body(ev, kind):
+        c = cur[-1]
+        effects.append(ev)
+        seen.append(kind)
+        for d in c[2]:
+            do_call(d)
+        if c[3]:
+            raise CallbackError()
+    h_next = lambda v: body(f"Deliver (Next {v})", "N")
+    h_err = lambda e: body(f"Deliver (Err {e.code if isinstance(e, SourceError) else e})", "E")
+    h_done = lambda: body("Deliver Done", "C")
+    if variant == "subclass":
+        class Sub(Observer):
+            def _on_next_core(self, value):
+                h_next(value)
+
+            def _on_error_core(self, error):
+                h_err(error)
+
+            def _on_completed_core(self):
+                h_done()
+        inner = Sub()
+    elif variant == "no_on_error":
+        inner = Observer(h_next, None, h_done)
+    else:
+        inner = Observer(h_next, h_err, h_done)
+    outer = inner.as_observer() if variant in ("as_observer", "mixed") else inner
+
+    def do_call(c):
+        o = inner if (variant == "mixed" and c[1] % 2 == 1) else outer
+        cur.append(c)
+        try:
+            if c[0] == "N":
+                o.on_next(c[1])
+            elif c[0] == "E":
+                o.on_error(SourceError(c[1]) if variant == "no_on_error" else c[1])
+            elif c[0] == "C":
+                o.on_completed()
+            elif c[0] == "D":
+                o.dispose()
+            else:
+                r = o.fail(SourceError(c[1]) if variant == "no_on_error" else c[1])
+                effects.append(f"FailReturned {gbool(r)}")
+        except CallbackError:
+            effects.append("Raised 77")
+        except SourceError:            # no error handler: the error itself comes back to the caller
+            effects.append("Raised 78")
+            seen.append("E")
+        finally:
+            cur.pop()
+    for c in forest:
+        do_call(c)
+    return effects, "".join(seen)
+
+
+def part_d(chk):
+    rng = random.Random(f"C01-observer-{chk.seed}")
+    n = 400 if chk.tier == "quick" else 6000
+    cases, nontrivial = [], set()
+    hist = {"variant": {}, "depth>0": 0, "raising": 0}
+    for i in range(n):
+        variant = rng.choice(OB_VARIANTS)
+        forest = [gen_call(rng, 2) for _ in range(rng.randint(1, 5))]
+        eff, saw = run_observer_forest(forest, variant)
+        chk.cov["evaluations"] += 1
+        hist["variant"][variant] = hist["variant"].get(variant, 0) + 1
+        g = "[" + "; ".join(g_call(c) for c in forest) + "]"
+        if not GRAMMAR.match(saw):
+            chk.violation(f"observer-base-grammar|{variant}|{g}",
+                          {"family": "observer_base", "variant": variant, "forest": forest, "history": g,
+                           "handlers_saw": saw, "effects": eff, "expected": "N*[EC]?"}, size=len(g))
+        hist["depth>0"] += 1 if any(c[2] for c in forest) else 0
+        hist["raising"] += 1 if any(c[3] for c in forest) else 0
+        if len(saw) > 1 and saw[-1] in "EC":
+            nontrivial.add(g + variant)
+        if variant in ("base", "as_observer", "subclass"):
+            cases.append((f"({gbool(variant == 'as_observer')}, {g})", "[" + "; ".join(eff) + "]"))
+    prelude = """
+Definition eff_eqb (a b : effect Z) : bool :=
+  match a, b with
+  | Deliver x, Deliver y => ev_eqb Z.eqb x y
+  | SubDispose, SubDispose => true
+  | Raised x, Raised y => x =? y
+  | FailReturned x, FailReturned y => Bool.eqb x y
+  | _, _ => false
+  end.
+(* through the as_observer() view: the two-layer model (C01_as_observer_view_is_an_observer relates the two) *)
+Definition model (c : bool * list (call Z)) :=
+  if fst c then snd (lay_run_calls false false (snd c)) else snd (ob_run_calls false (snd c)).
+"""
+    bad, logs = lib.correspondence("C01", "observer", IMPORTS_D, "(bool * list (call Z)) * list (effect Z)", "model",
+                                   "(list_eqb eff_eqb)", cases, prelude=prelude)
+    chk.cov["traces_validated_against_impl"] += len(cases)
+    chk.cov["disagreements_checked"] += len(cases)
+    if bad:
+        firsts = [cases[i] for i in bad if i >= 0][:3]
+        d = {"n": len(bad), "first (history, implementation effects)": firsts, "logs": logs[:1]}
+        if firsts:
+            d["model_says"] = lib.coq_show("C01", IMPORTS_D, f"model {firsts[0][0]}", prelude)
+        chk.tie_broken("correspondence K1: Observer base class (observer/observer.py) vs Core/ObserverBase.v", d)
+    if cases:
+        chk.add_samples([{"observer history": cases[0][0], "effects": cases[0][1]}])
+    return nontrivial, hist
+
+
+# ---- (e) the choke point, structurally ----------------------------------------------------------------------
+
+CB_NAMES = ("on_next", "on_error", "on_completed")
+
+
+def _base_names(cls):
+    out = []
+    for b in cls.bases:
+        while isinstance(b, ast.Subscript):
+            b = b.value
+        if isinstance(b, ast.Attribute):
+            out.append(b.attr)
+        elif isinstance(b, ast.Name):
+            out.append(b.id)
+    return out
+
+
+def structural(repo=None):
+    """-> (problems, facts).  Static (every .py under reactivex/, also modules that cannot be imported here):
+    no class that derives -- by base-class NAME, transitively -- from Observable defines or assigns `subscribe`;
+    inside Observable.subscribe the user's callbacks are read only by the observer-object test
+    (isinstance/hasattr/getattr/callable/cast) and by the call AutoDetachObserver(on_next, on_error, on_completed);
+    _subscribe_core receives that wrapper; the returned Disposable wraps the wrapper's dispose.
+    Dynamic (every importable module): for every loaded subclass of Observable, `subscribe` IS Observable.subscribe."""
+    repo = repo or lib.REPO
+    problems, classes = [], {}
+    obs_subscribe = None
+    root = os.path.join(repo, "reactivex")
+    for d, _, fs in os.walk(root):
+        for fn in sorted(fs):
+            if not fn.endswith(".py"):
+                continue
+            path = os.path.join(d, fn)
+            rel = os.path.relpath(path, repo)
+            try:
+                tree = ast.parse(open(path).read())
+            except SyntaxError as e:
+                problems.append(f"{rel}: cannot be parsed ({e})")
+                continue
+            for node in ast.walk(tree):
+                if not isinstance(node, ast.ClassDef):
+                    continue
+                defines = [m.name for m in node.body if isinstance(m, (ast.FunctionDef, ast.AsyncFunctionDef))]
+                for m in node.body:
+                    if isinstance(m, (ast.Assign, ast.AnnAssign)):
+                        tg = m.targets if isinstance(m, ast.Assign) else [m.target]
+                        defines += [t.id for t in tg if isinstance(t, ast.Name)]
+                classes.setdefault(node.name, []).append((rel, _base_names(node), defines))
+                if node.name == "Observable" and rel == os.path.join("reactivex", "observable", "observable.py"):
+                    obs_subscribe = next((m for m in node.body if isinstance(m, ast.FunctionDef)
+                                          and m.name == "subscribe"), None)
+    derived = {"Observable"}
+    grew = True
+    while grew:
+        grew = False
+        for name, defs in classes.items():
+            if name not in derived and any(set(b) & derived for (_, b, _) in defs):
+                derived.add(name)
+                grew = True
+    for name in sorted(derived):
+        for (rel, bases, defines) in classes.get(name, []):
+            if name == "Observable" and rel == os.path.join("reactivex", "observable", "observable.py"):
+                continue
+            if "subscribe" in defines and (name != "Observable" or set(bases) & derived):
+                problems.append(f"{rel}: class {name}({', '.join(bases)}) defines `subscribe` -- subscribers of it "
+                                f"are not wrapped by Observable.subscribe")
+    facts = {"classes_deriving_from_Observable": sorted(derived - {"Observable"})}
+    if obs_subscribe is None:
+        problems.append("reactivex/observable/observable.py: class Observable has no method `subscribe`")
+    else:
+        parent = {}
+        for n in ast.walk(obs_subscribe):
+            for c in ast.iter_child_nodes(n):
+                parent[c] = n
+
+        def enclosing_calls(n):
+            out = []
+            while n in parent:
+                n = parent[n]
+                if isinstance(n, ast.Call):
+                    f = n.func
+                    out.append(f.id if isinstance(f, ast.Name) else (f.attr if isinstance(f, ast.Attribute) else "?"))
+            return out
+        wrapper_names = []
+        for n in ast.walk(obs_subscribe):
+            if isinstance(n, ast.Name) and n.id in CB_NAMES and isinstance(n.ctx, ast.Load):
+                calls = enclosing_calls(n)
+                if not calls or calls[0] not in ("AutoDetachObserver", "isinstance", "hasattr", "getattr", "cast"):
+                    problems.append(f"observable.py:{n.lineno}: Observable.subscribe reads the user's `{n.id}` outside "
+                                    f"AutoDetachObserver(...) / the observer-object test (enclosing call: "
+                                    f"{calls[0] if calls else 'none'})")
+            if isinstance(n, ast.Assign) and isinstance(n.value, ast.Call) and isinstance(n.value.func, ast.Name) \
+                    and n.value.func.id == "AutoDetachObserver":
+                wrapper_names += [t.id for t in n.targets if isinstance(t, ast.Name)]
+            if isinstance(n, ast.AnnAssign) and isinstance(n.value, ast.Call) and isinstance(n.value.func, ast.Name) \
+                    and n.value.func.id == "AutoDetachObserver" and isinstance(n.target, ast.Name):
+                wrapper_names.append(n.target.id)
+                args = [a.id if isinstance(a, ast.Name) else None for a in n.value.args]
+                if args != list(CB_NAMES) or n.value.keywords:
+                    problems.append(f"observable.py:{n.lineno}: AutoDetachObserver is not built from "
+                                    f"(on_next, on_error, on_completed) but from {args}")
+        if len(wrapper_names) != 1:
+            problems.append(f"Observable.subscribe builds {len(wrapper_names)} AutoDetachObserver wrappers (expected 1)")
+        w = wrapper_names[0] if wrapper_names else None
+        # an observer OBJECT is only ever taken apart into its three methods, which become the callbacks
+        for n in ast.walk(obs_subscribe):
+            if isinstance(n, ast.Name) and n.id == "obv" and isinstance(n.ctx, ast.Load):
+                p = parent.get(n)
+                ok = (isinstance(p, ast.Attribute) and p.attr in CB_NAMES and isinstance(parent.get(p), ast.Assign)
+                      and [getattr(t, "id", None) for t in parent[p].targets] == [p.attr])
+                if not ok:
+                    problems.append(f"observable.py:{n.lineno}: the observer object is used otherwise than "
+                                    f"`on_x = obv.on_x`")
+        core = [n for n in ast.walk(obs_subscribe) if isinstance(n, ast.Call) and isinstance(n.func, ast.Attribute)
+                and n.func.attr == "_subscribe_core"]
+        if len(core) != 1:
+            problems.append(f"Observable.subscribe calls _subscribe_core {len(core)} times (expected 1)")
+        for c in core:
+            a0 = c.args[0] if c.args else None
+            if not (isinstance(a0, ast.Name) and a0.id == w):
+                problems.append(f"observable.py:{c.lineno}: _subscribe_core is not given the AutoDetachObserver wrapper")
+        rets = [n for n in ast.walk(obs_subscribe) if isinstance(n, ast.Return)
+                and any(obs_subscribe is x for x in _function_chain(n, parent))]
+        own = [r for r in rets if _function_chain(r, parent)[0] is obs_subscribe]
+        for r in own:
+            v = r.value
+            ok = (isinstance(v, ast.Call) and isinstance(v.func, ast.Name) and v.func.id == "Disposable"
+                  and len(v.args) == 1 and isinstance(v.args[0], ast.Attribute) and v.args[0].attr == "dispose"
+                  and isinstance(v.args[0].value, ast.Name) and v.args[0].value.id == w)
+            if not ok:
+                problems.append(f"observable.py:{r.lineno}: subscribe() does not return Disposable(<wrapper>.dispose)")
+        facts["wrapper_variable"] = w
+    # dynamic: the classes as Python resolves them
+    import importlib
+    import pkgutil
+    rx = lib.import_repo()
+    skipped = []
+    for m in pkgutil.walk_packages(rx.__path__, "reactivex."):
+        try:
+            importlib.import_module(m.name)
+        except BaseException as e:          # optional GUI / event-loop dependencies
+            skipped.append(f"{m.name}: {type(e).__name__}")
+    from reactivex import Observable
+    seen, todo = set(), [Observable]
+    while todo:
+        c = todo.pop()
+        for sc in c.__subclasses__():
+            if sc not in seen:
+                seen.add(sc)
+                todo.append(sc)
+    for sc in sorted(seen, key=lambda c: (c.__module__, c.__qualname__)):
+        if not sc.__module__.startswith("reactivex"):
+            continue
+        if getattr(sc, "subscribe", None) is not Observable.subscribe:
+            problems.append(f"{sc.__module__}.{sc.__qualname__}.subscribe is not Observable.subscribe")
+    facts["loaded_subclasses_checked"] = sorted(f"{c.__module__}.{c.__qualname__}" for c in seen
+                                                if c.__module__.startswith("reactivex"))
+    facts["modules_not_importable_here (static check only)"] = skipped
+    return problems, facts
+
+
+def _function_chain(n, parent):
+    out = []
+    while n in parent:
+        n = parent[n]
+        if isinstance(n, (ast.FunctionDef, ast.AsyncFunctionDef, ast.Lambda)):
+            out.append(n)
+    return out
+
+
+def part_e(chk):
+    problems, facts = structural()
+    chk.cov["evaluations"] += 1
+    if problems:
+        chk.tie_broken("structural: subscribers are wrapped at exactly one choke point (Observable.subscribe -> "
+                       "AutoDetachObserver)", {"problems": problems, **facts})
+    return facts
+
+
+# ---- (f) pipelines headed by a multi-source operator (oracle only) ------------------------------------------
+
+MULTI_HEADS = ["concat", "catch", "catch_handler", "on_error_resume_next", "repeat", "retry", "while_do", "do_while",
+               "merge", "flat_map", "merge_all", "concat_map", "merge_mc", "switch_map", "switch_latest",
+               "zip", "combine_latest", "with_latest_from", "fork_join", "amb", "take_until", "skip_until"]
+OPTS_F = dict(values=[0, 1, 2, 7, -1], nonconforming=0.5, p_stages=0.8, p_tail=0.2, p_sync=0.4, p_sub_raises=0.3,
+              dispose="event", p_dispose=0.1, judge="grammar")
+
+
+def part_f(chk):
+    """the multi-source operators of the C10-C13 tables (harness/comb_table.py) over hand-driven sources, half of
+    them with a non-conforming tail, 40% with sources delivering inside subscribe(), followed by take(n)/first()
+    and/or 1-2 stages of the C05/C06 tables with raising callbacks; 30% raising subscriber.  Oracle only: the
+    grammar on what the subscriber saw, nothing escapes into the emitter."""
+    import relcases
+    rng = random.Random(f"C01-multi-{chk.seed}")
+    hist, nt = relcases.multi_family(chk, "C01", "multi_head", MULTI_HEADS, 40 if chk.tier == "quick" else 500,
+                                     OPTS_F, rng)
+    return nt, hist
+
+
 def _c05_table_hashable():
     # C05.ops_table reads k2.POOL through its module-level import; rebuild with the hashable pool
     import importlib
@@ -381,7 +796,11 @@ def run(chk):
     nt_a, hist_a = part_a(chk)
     nt_b, hist_b = part_b(chk)
     nt_c, hist_c = part_c(chk)
-    chk.cov["distinct_nontrivial"] = len(nt_a) + len(nt_b) + len(nt_c)
+    nt_bs, hist_bs = part_b(chk, sync=True)
+    nt_d, hist_d = part_d(chk)
+    facts_e = part_e(chk)
+    nt_f, hist_f = part_f(chk)
+    chk.cov["distinct_nontrivial"] = len(nt_a) + len(nt_b) + len(nt_c) + len(nt_bs) + len(nt_d) + len(nt_f)
     chk.cov["rule"] = ("(a) seeded random call forests on AutoDetachObserver (1-5 top-level calls, nesting <= 2, "
                        "20% raising callbacks; kinds on_next/on_error/on_completed/dispose/fail); non-trivial = "
                        "distinct forests whose callbacks saw >= 2 notifications ending in a terminal.  (b) seeded "
@@ -390,11 +809,72 @@ def run(chk):
                        "Observable.subscribe around hand-written subscribe functions: prefix delivered inside "
                        "subscribe (0-3 calls), the function then raises (50%) or returns a disposable / None / a "
                        "callable, keeps the observer and delivers a tail later (0-4 calls incl. dispose); subscriber "
-                       "given as callbacks / Observer object / without error handler; 15% raising callbacks")
-    chk.cov["input_distribution"] = {"autodetach": hist_a, "pipelines": hist_b, "subscribe": hist_c}
-    return chk.finish(trusted_extra=["drivers harness/props/C01.py (call-forest replay) and harness/k2.py"])
+                       "given as callbacks / Observer object / duck-typed observer object / without error handler; 30% "
+                       "of the subscribe() calls made from inside a running trampoline (inline set_disposable branch); "
+                       "15% raising callbacks.  (b') pipelines as in (b), own random stream, whose source delivers the "
+                       "first p >= 1 inputs (40%: all of them) inside its own subscribe(), against the same composed "
+                       "machines.  (d) the call forests of (a), own random stream, on the Observer base class: "
+                       "Observer(cb, cb, cb), its as_observer() view, a subclass overriding the _core methods (these three "
+                       "against Core/ObserverBase.v), calls mixed between an observer and its as_observer() view and an "
+                       "observer without error handler (grammar oracle only); non-trivial as in (a).  (e) one structural "
+                       "evaluation: AST of every reactivex/*.py + every loaded subclass of Observable (see "
+                       "input_distribution.structural).  (f) oracle only (harness/relcases.py, one seed per case): every "
+                       "multi-source operator of the C10-C13 tables over hand-driven sources (50% non-conforming tails, 40% "
+                       "with sources delivering inside subscribe()), followed (80% of the Z-valued ones) by 1-2 stages of "
+                       "the C05/C06 tables and/or take(n)/first(), 30% raising subscriber: grammar on what the subscriber "
+                       "saw, nothing escapes; non-trivial = a source was subscribed and released")
+    chk.cov["input_distribution"] = {"autodetach": hist_a, "pipelines": hist_b, "subscribe": hist_c,
+                                     "pipelines_source_emitting_inside_subscribe": hist_bs, "observer_base": hist_d,
+                                     "structural": facts_e, "pipelines_with_multi_source_head": hist_f}
+    return chk.finish(trusted_extra=["drivers harness/props/C01.py (call-forest replay) and harness/k2.py",
+                                     "structural check (e): classes are related by base-class NAME in the AST part; the "
+                                     "loaded-class part covers only modules importable in this environment"])
 
 
 def replay(chk, path):
-    print(open(path).read())
-    return 1
+    d = json.load(open(path))
+    fam = d.get("family")
+    saw = None
+    if fam == "multi_head":
+        import relcases
+        return relcases.replay_main("C01", path)
+    if fam == "autodetach":
+        forest = _tuplify(d["forest"])
+        eff = run_forest(forest)
+        saw = "".join("N" if "Next" in e else ("E" if "Err" in e else "C") for e in eff if e.startswith("Deliver"))
+    elif fam == "observer_base":
+        eff, saw = run_observer_forest(_tuplify(d["forest"]), d["variant"])
+    elif fam == "subscribe":
+        case = dict(d["subscribe_case"])
+        for k in ("prefix", "tail"):
+            case[k] = [tuple(c) for c in case[k]]
+        made, eff, saw = run_subscribe_case(case)
+    elif fam == "pipeline_sync":
+        saw, res, pipeline, gi, p = replay_pipeline_sync(d["case_seed"])
+        print(json.dumps({"pipeline": pipeline, "inputs": gi, "inputs_delivered_inside_subscribe": p,
+                          "subscriber_saw": saw, "escaped": [repr(e) for _, e in res["escapes"]]}, indent=1))
+        if not GRAMMAR.match(saw) or res["escapes"]:
+            print(f"VIOLATION property=C01 replay={path}")
+            return 1
+        print("[C01] replay: the case no longer fails")
+        return 0
+    elif fam == "structural":
+        problems, _ = structural()
+        print(json.dumps(problems, indent=1))
+        if problems:
+            print(f"VIOLATION property=C01 replay={path}")
+            return 1
+        return 0
+    if saw is None:
+        print(open(path).read())
+        return 1
+    print(json.dumps({"handlers_saw": saw, "effects": eff, "expected": "N*[EC]?"}, indent=1))
+    if not GRAMMAR.match(saw):
+        print(f"VIOLATION property=C01 replay={path}")
+        return 1
+    print("[C01] replay: the case no longer fails")
+    return 0
+
+
+def _tuplify(forest):
+    return [(c[0], c[1], _tuplify(c[2]), c[3]) for c in forest]
